@@ -40,5 +40,7 @@ ConfigsBug257 == {Cfg("log", 2, 257, "none", TRUE)}
 ConfigsSim == UNION {{Cfg(k, v, n, c, TRUE) : v \in {1, 2}, n \in {0, 1, 2, 3, 4, 7}, c \in CS(k)} : k \in {"log", "param"}}
 WindowAll == 0..65535
 WindowBoundary == {0, 1, 253, 254, 255, 256, 257, 299}
+\* the graph that is dumped and toured in the thorough tier (retry on; the retry-off half is checked by ConfigsSmall / ConfigsSmall4)
+ConfigsTour == UNION {{Cfg(k, v, n, c, TRUE) : v \in {1, 2}, n \in 0..3, c \in CS(k)} : k \in {"log", "param"}}
 ConfigsSmall4 == UNION {{Cfg(k, v, n, c, r) : v \in {1, 2}, n \in 0..4, c \in CS(k), r \in BOOLEAN} : k \in {"log", "param"}}
 ====
